@@ -17,4 +17,14 @@ PROPS = {
         'assumptions': ['a QUIC stream delivers the written bytes in order followed by FIN (the decoders are modelled on a complete byte stream)',
                         'header maps are compared as maps (the encoder\'s iteration order is arbitrary; the theorem holds for every order)'],
     },
+    'C15': {
+        'modules': ['AnemoModel.Props.C15'],
+        'technique': 'Lean 4 theorems: exact send/receive boundary for all sizes and limit placements, full RPC outcome characterisation, negation witness for the unset-limit clause; boundary differential in memory and whole RPCs on an in-memory QUIC fabric',
+        'level_text': 'Machine-checked proof over the codec/RPC model that a frame is accepted by the writer and by the reader exactly when its length is <= the effective local maximum, that an RPC succeeds exactly when all four frames fit under both ends\' limits and otherwise fails with frame-too-big at the first refusing side, and that data up to and including the maximum is delivered intact. The clause "no limit when unset" is proved FALSE of the model (witness 8 MiB + 1; tokio-util default) and the same input is replayed on the real code each run (known finding C15-unset-limit-is-8MiB). Correspondence: boundary sizes max-2..max+2 for 8 limit values through the real writer/reader, and whole RPCs on the fabric with the limit on caller only / callee only / both / neither, header and body, request and response, each followed by a confinement probe (follow-up RPC, connection still listed). Confinement of the error to the stream rests on QUIC stream independence (trusted).',
+        'level_note': 'Trusted: Lean kernel and audited axioms; tools/gen.py; harness/driver; tokio-util codec and quinn stream behaviour (modelled; validated differentially). The effective default of 8 MiB is a constant of tokio-util recorded in the model (codecDefaultMax) and checked by the boundary runs.',
+        'rule': 'in memory: for each limit in {16,17,100,1024,1MiB,8MiB,8MiB+5,unset} sizes max-2..max+2 plus two random, header and body, writer and reader; fabric: random placement of limits {300,1000,4096,70000, x2 asymmetric, unset} x which frame sits at the boundary (request header/body, response header/body). Every case distinct by construction (op line)',
+        'trusted_base': [KERNEL, AXIOMS, TRANSLATOR, HARNESS, 'modelled: tokio-util LengthDelimitedCodec (max_frame_length default 8 MiB, clamped to the 4-byte field), quinn streams as reliable ordered pipes'],
+        'assumptions': ['QUIC streams are independent: an error on one stream does not disturb another (checked by the follow-up probe on every case, not proved)',
+                        'virtual time: a hang is an RPC unanswered after 120 virtual seconds'],
+    },
 }
